@@ -49,6 +49,7 @@ def build_jobs(tier, seed):
     else:
         # every two-scope combination of merge.tool x diff.guitool (81), every attributes combination x location
         names = sorted(W.ATTRS)
+        n = 0
         for mr in W.TOOLVALS:
             for mg in W.TOOLVALS:
                 for dr in W.TOOLVALS:
@@ -56,20 +57,19 @@ def build_jobs(tier, seed):
                         i = W.random_init(rnd)
                         i['repo'].update({'merge.tool': mr, 'diff.guitool': dr})
                         i['global'].update({'merge.tool': mg, 'diff.guitool': dg})
+                        # ... and every two-scope combination of the two prompts, paired with them by a bijection
+                        q = (n * 7 + 3) % 81
+                        i['repo'].update({'mergetool.prompt': W.PROMPTS[q % 3], 'difftool.prompt': W.PROMPTS[q // 3 % 3]})
+                        i['global'].update({'mergetool.prompt': W.PROMPTS[q // 9 % 3], 'difftool.prompt': W.PROMPTS[q // 27]})
                         inits.append(i)
+                        n += 1
         for a, ar in enumerate(names):
             for b, ag in enumerate(names):
                 i = W.random_init(rnd)
                 i['attrs'] = {'repo': ar, 'global': ag}
                 i['loc'] = W.LOCS[(a + b) % 3]      # every global variant meets every location
                 inits.append(i)
-        for pr in W.PROMPTS:
-            for pg in W.PROMPTS:
-                i = W.random_init(rnd)
-                i['repo'].update({'mergetool.prompt': pr, 'difftool.prompt': pg})
-                i['global'].update({'mergetool.prompt': pg, 'difftool.prompt': pr})
-                inits.append(i)
-        inits += [W.random_init(rnd) for _ in range(35)]
+        inits += [W.random_init(rnd) for _ in range(4)]
         exact = True
     return [(i, s, DEPTH, exact, QUICK_LAST if tier == 'quick' else None, seed * 1009 + n)
             for n, i in enumerate(inits) for s in (None, 'global')]
@@ -237,9 +237,9 @@ def run_bounded(res):
         'tool-not-registered-after-enable, still-routed-after-disable; per pair: not-idempotent (enable;enable vs enable on parsed config of '
         'every scope and bytes of every other file). Distinct case = (initial configuration, scope, state, command).'
         % (len(_fixed_inits()),
-           '5 seeded random ones' if res.tier == 'quick' else 'all 81 two-scope merge.tool x diff.guitool combinations, all %d repo x global attributes '
-           'combinations (locations cycled so that every global variant meets every location), 9 prompt combinations (other dimensions '
-           'seeded random) and 35 seeded random ones' % (len(W.ATTRS) ** 2),
+           '5 seeded random ones' if res.tier == 'quick' else 'all 81 two-scope merge.tool x diff.guitool combinations (each paired with one of the 81 two-scope '
+           'mergetool.prompt x difftool.prompt combinations, bijectively), all %d repo x global attributes combinations (locations cycled so that '
+           'every global variant meets every location) -- other dimensions seeded random -- and 4 seeded random ones' % (len(W.ATTRS) ** 2),
            sorted(W.ATTRS), W.LOCS, len(W.COMMANDS), DEPTH,
            'parsed config of each scope + bytes of all other user files (quick tier)' if res.tier == 'quick' else 'exact bytes of every user-owned file',
            ('all sequences of length 1 and 2 are covered as paths and, at the third step, %d seeded-random commands per state plus the enable '
